@@ -26,13 +26,14 @@ Content(j) == CASE j.kind = "none" -> [kind |-> "none"]
                 [] OTHER -> [kind |-> j.kind]
 DeliveryOf(j) == [path |-> j.path, kind |-> j.kind, keyOk |-> j.keyOk, heldIdx |-> j.heldIdx, parse |-> j.parse,
                   pay |-> [sigs |-> j.pay.sigs, self |-> j.pay.self, close |-> j.pay.close, fresh |-> j.pay.fresh,
-                           chain |-> j.pay.chain, addr |-> j.pay.addr],
+                           chain |-> j.pay.chain, addr |-> j.pay.addr, mode |-> j.pay.mode, shape |-> j.pay.shape],
                   pad |-> [c |-> j.pad.c, sig |-> j.pad.sig, content |-> j.pad.content],
                   txs |-> {[id |-> j.txs[i].id, ok |-> j.txs[i].ok] : i \in 1..Len(j.txs)},
                   ops |-> {[id |-> j.ops[i].id, ok |-> j.ops[i].ok] : i \in 1..Len(j.ops)}]
 StepOf(e) == [d |-> DeliveryOf(e.d), res |-> e.res, beforeD |-> Content(e.aBeforeD), afterD |-> Content(e.aAfterD),
               beforeP |-> Content(e.aBeforeP), afterP |-> Content(e.aAfterP), gained |-> SetOf(e.gained), lost |-> SetOf(e.lost),
-              derivedOK |-> e.derivedOK, contentOK |-> e.contentOK, unverified |-> e.unverified]
+              derivedOK |-> e.derivedOK, contentOK |-> e.contentOK, unverified |-> e.unverified,
+              unvSame |-> e.unvSame, viaKad |-> e.viaKad, exp |-> e.exp, calls |-> e.calls]
 
 \* gated runs (disk writes of a whole sequence parked, the index lagging): only the C07 clauses apply
 GatedClauses == {"C07_Applied", "C07_ScratchpadMonotone", "C07_GrowOnly", "C07_OnlyValid", "C04_StoredUnderDerivedKey"}
